@@ -1,0 +1,13 @@
+//go:build verif
+
+package postgres
+
+import "context"
+
+// VerifEnsureTable exposes the table set-up step of Connect to the verification harness, which
+// injects its connection with WithConnection and therefore never goes through Connect.
+//
+// Compiled only with the build tag "verif"; it adds an entry point and changes no behaviour.
+func (pdb *pgDb) VerifEnsureTable(ctx context.Context) error {
+	return pdb.ensureTable(ctx)
+}
